@@ -584,7 +584,7 @@ def main(argv: list) -> int:
                 runs = []
                 info: dict = {}
                 for repeat in range(int(request.get("repeats", 1))):
-                    perturb(garbage + 5 * repeat)
+                    perturb(garbage + 5 * repeat + int(request["spec"].get("ballast", 0)))
                     dumps, error, run_info = run_once(request["sub"], request["spec"])
                     cache[repeat] = dumps
                     runs.append({"digests": {stage: digest(dump) for stage, dump in dumps.items()}, "error": error})
